@@ -16,6 +16,7 @@ import LlgVerif.Model.Numeric
 import LlgVerif.Model.Inline
 import LlgVerif.Spec.Json
 import LlgVerif.Model.FloatRange
+import LlgVerif.Model.NumSat
 open LlgVerif Drv
 
 def wordsOf (l : List Nat) : List Word := l.map (fun n => BitVec.ofNat 32 n)
@@ -547,6 +548,14 @@ def handleNum (args : List String) : String :=
       | .ok p => "ok " ++ p.s
       | .error _ => "err"
     | _, _ => "bad-op"
+  | ["sat", lo, lex, hi, hex, step] =>
+    -- bounds and step as integers at a common decimal scale; step 0 = no multipleOf on a number
+    let pi := fun (x : String) => if x.startsWith "-" then (x.drop 1).toString.toNat?.map (fun n => -(n : Int)) else x.toNat?.map (fun n => (n : Int))
+    match pi lo, pi hi, pi step with
+    | some lo, some hi, some step =>
+      if step = 0 then showBool (hasPoint lo (lex = "1") hi (hex = "1"))
+      else showBool (hasMult lo (lex = "1") hi (hex = "1") step)
+    | _, _, _ => "bad-op"
   | ["float", l, r, li, ri] =>
     -- bounds as decimal text (`-12.5`, `3`, `0.001`) or `none`
     let fb := fun (x : String) => if x = "none" then some none else
